@@ -161,6 +161,21 @@ def main():
     body, _ = block_after(lb, mp.end() - 1)
     pred = squash(body)
 
+    # lib.rs: the wrapper of format_code_block indents which lines?
+    me = re.search(r"fn\s+enclose_in_main_block\s*\(", lb)
+    if not me:
+        refuse(NAME, "src/lib.rs: fn enclose_in_main_block not found")
+    ebody, _ = block_after(lb, me.end())
+    mg = re.search(r"\bif\b(.*?)\{\s*result\.push_str\(&indent\.to_string\(config\)\)\s*;\s*\}", ebody, re.S)
+    if not mg:
+        refuse(NAME, "src/lib.rs: `if <cond> { result.push_str(&indent.to_string(config)); }` not found in enclose_in_main_block")
+    eguard = [squash(c) for c in mg.group(1).split("&&")]
+    if eguard not in (["need_indent"], ["need_indent", "!line.is_empty()"]):
+        refuse(NAME, f"src/lib.rs: enclose_in_main_block indents a line under {eguard}: not understood")
+    raw = squash(strip_rust_comments(read(a.repo, "src/lib.rs", NAME)))
+    if 'constFN_MAIN_PREFIX:&str="fnmain(){\\n";' not in raw or "result.push_str(FN_MAIN_PREFIX);" not in squash(ebody) or "result.push('}');result}" not in raw:
+        refuse(NAME, "src/lib.rs: enclose_in_main_block no longer wraps in FN_MAIN_PREFIX ... '}'")
+
     L = ["/- GENERATED by translate/c04_skipsites.py from src/visitor.rs (and every other file under src/), src/spanned.rs,",
          "src/macros.rs, src/lib.rs.  Do not edit. -/",
          "namespace RF.Gen.SkipSites\n",
@@ -185,6 +200,10 @@ def main():
          "def reindentGuard : List String := [" + ", ".join(lean_str(g) for g in guard) + "]\n",
          "/-- the body of `FormattedSnippet::is_line_non_formatted(&self, n)` -/",
          f"def nonFormattedPredicate : String := {lean_str(pred)}\n",
+         "/-- the conjuncts of the condition under which `enclose_in_main_block` (lib.rs, `format_code_block`) indents a line -/",
+         "def encloseGuard : List String := [" + ", ".join(lean_str(g) for g in eguard) + "]\n",
+         "/-- empty lines are left empty by the wrapper -/",
+         f"def encloseSkipsEmptyLines : Bool := {'true' if len(eguard) == 2 else 'false'}\n",
          "end RF.Gen.SkipSites\n"]
     changed = write_if_changed(os.path.join(a.out, "SkipSites.lean"), "\n".join(L))
     print(f"c04_skipsites: ok ({'rewritten' if changed else 'unchanged'}); {len(sites)} calls of {CALL}: "
